@@ -7,16 +7,31 @@
 (*   "han"                     a CJK letter (class Letter: neither lower nor upper), wide                        *)
 (*   " " "TAB"                 white space            "_" "-" "." "$" "^" "'" "!" "|" "\\"  non-word             *)
 (*   "/" "," ":" ";"           delimiters (scheme dependent)                                                     *)
+(* Added for the field tokenizer (C10); no other module's alphabet contains them:                               *)
+(*   "CR" "VT" "FF" "LF"       ASCII control characters that unicode.IsSpace accepts (U+000D, 000B, 000C, 000A)  *)
+(*   "BS" "US" "DEL"           other ASCII control characters (U+0008, U+001F next to TAB / SPACE, U+007F)       *)
+(*   "NBSP" "NEL"              U+00A0, U+0085: white space of Latin-1 (UTF-8 C2 A0, C2 85)                       *)
+(*   "IDSP" "EMSP"             U+3000 ideographic space (wide, E3 80 80), U+2003 em space (E2 80 83)             *)
+(*   "ZWSP"                    U+200B zero width space: NOT white space for unicode.IsSpace                      *)
+(*   "a`" "aog"                a-grave U+00E0 (C3 A0), a-ogonek U+0105 (C4 85); both fold to "a"                 *)
+(*   "dag"                     dagger U+2020 (E2 80 A0), non-word                                                *)
+(*   "ni" "hori"               CJK letters U+4F60 (E4 BD A0), U+5800 (E5 A0 80), wide                            *)
 EXTENDS Integers, Sequences
 
-Lowers  == {"a", "b", "c", "e", "a~", "e~"}
+Lowers  == {"a", "b", "c", "e", "a~", "e~", "a`", "aog"}
 Uppers  == {"A", "B", "C", "A~"}
 Digits  == {"1", "2"}
-Letters == {"han"}
+Letters == {"han", "ni", "hori"}
 Whites  == {" ", "TAB"}
+(* further characters of class white / unicode.IsSpace; kept apart from Whites (the blanks of the alphabets of the  *)
+(* other modules, and exactly the AWK field separators)                                                              *)
+OtherSpaces == {"CR", "VT", "FF", "LF", "NBSP", "NEL", "IDSP", "EMSP"}
+Controls == {"BS", "US", "DEL"}                       \* class nonword, not white space
+OtherNonWords == {"ZWSP", "dag"}
 DelimsDefault == {"/", ",", ":", ";", "|"}
 NonWordsBase == {"_", "-", ".", "$", "^", "'", "!", "\\", "(", ")", "*", "+"}
 AllSymbols == Lowers \cup Uppers \cup Digits \cup Letters \cup Whites \cup DelimsDefault \cup NonWordsBase
+              \cup OtherSpaces \cup Controls \cup OtherNonWords
 
 (* scheme-dependent delimiter set: algo.Init *)
 Delims(scheme) == IF scheme = "path" THEN {"/"} ELSE DelimsDefault
@@ -27,7 +42,7 @@ Class(c, scheme) ==
     ELSE IF c \in Uppers THEN "upper"
     ELSE IF c \in Digits THEN "number"
     ELSE IF c \in Letters THEN "letter"
-    ELSE IF c \in Whites THEN "white"
+    ELSE IF c \in Whites \cup OtherSpaces THEN "white"
     ELSE IF c \in Delims(scheme) THEN "delimiter"
     ELSE "nonword"
 
@@ -37,11 +52,13 @@ Lower(c) == CASE c = "A" -> "a" [] c = "B" -> "b" [] c = "C" -> "c" [] c = "A~" 
 Upper(c) == CASE c = "a" -> "A" [] c = "b" -> "B" [] c = "c" -> "C" [] c = "a~" -> "A~" [] OTHER -> c
 IsUpper(c) == c \in Uppers
 (* accent folding (algo/normalize.go): Latin letters with diacritics map to their base letter, case kept *)
-Norm(c) == CASE c = "a~" -> "a" [] c = "A~" -> "A" [] c = "e~" -> "e" [] OTHER -> c
+Norm(c) == CASE c = "a~" -> "a" [] c = "A~" -> "A" [] c = "e~" -> "e" [] c = "a`" -> "a" [] c = "aog" -> "a" [] OTHER -> c
 HasAccent(c) == Norm(c) # c
-IsAscii(c) == c \notin {"a~", "A~", "e~", "han"}
-Width(c) == IF c = "han" THEN 2 ELSE 1
-IsSpace(c) == c \in Whites
+IsAscii(c) == c \notin {"a~", "A~", "e~", "han", "a`", "aog", "ni", "hori", "NBSP", "NEL", "IDSP", "EMSP", "ZWSP", "dag"}
+Width(c) == IF c \in {"han", "ni", "hori", "IDSP"} THEN 2 ELSE 1        \* printable characters only
+IsSpace(c) == c \in Whites \cup OtherSpaces                             \* unicode.IsSpace
+(* number of bytes of the UTF-8 encoding *)
+Utf8Len(c) == IF IsAscii(c) THEN 1 ELSE IF c \in {"a~", "A~", "e~", "a`", "aog", "NBSP", "NEL"} THEN 2 ELSE 3
 
 LowerSeq(s) == [i \in 1..Len(s) |-> Lower(s[i])]
 NormSeq(s) == [i \in 1..Len(s) |-> Norm(s[i])]
